@@ -950,13 +950,30 @@ func (c *Conn) handleBdat(arg string) {
 		c.writeResponse(501, EnhancedCode{5, 5, 4}, "Missing chunk size argument")
 		return
 	}
+
+	// ParseUint instead of Atoi so we will not accept negative values.
+	size, err := strconv.ParseUint(args[0], 10, 32)
+
+	// The client sends the announced octets whatever we reply, so a refused
+	// BDAT must still consume its chunk (without passing it to the backend)
+	// instead of leaving it to be read as commands.
+	discardChunk := func() {
+		if err == nil {
+			c.lineLimitReader.LineLimit = 0
+			io.Copy(ioutil.Discard, io.LimitReader(c.text.R, int64(size)))
+			c.lineLimitReader.LineLimit = c.server.MaxLineLength
+		}
+	}
+
 	if len(args) > 2 {
 		c.writeResponse(501, EnhancedCode{5, 5, 4}, "Too many arguments")
+		discardChunk()
 		return
 	}
 
 	if !c.fromReceived || len(c.recipients) == 0 {
 		c.writeResponse(502, EnhancedCode{5, 5, 1}, "Missing RCPT TO command.")
+		discardChunk()
 		return
 	}
 
@@ -964,13 +981,12 @@ func (c *Conn) handleBdat(arg string) {
 	if len(args) == 2 {
 		if !strings.EqualFold(args[1], "LAST") {
 			c.writeResponse(501, EnhancedCode{5, 5, 4}, "Unknown BDAT argument")
+			discardChunk()
 			return
 		}
 		last = true
 	}
 
-	// ParseUint instead of Atoi so we will not accept negative values.
-	size, err := strconv.ParseUint(args[0], 10, 32)
 	if err != nil {
 		c.writeResponse(501, EnhancedCode{5, 5, 4}, "Malformed size argument")
 		return
@@ -978,10 +994,7 @@ func (c *Conn) handleBdat(arg string) {
 
 	if c.server.MaxMessageBytes != 0 && c.bytesReceived+int64(size) > c.server.MaxMessageBytes {
 		c.writeResponse(552, EnhancedCode{5, 3, 4}, "Max message size exceeded")
-
-		// Discard chunk itself without passing it to backend.
-		io.Copy(ioutil.Discard, io.LimitReader(c.text.R, int64(size)))
-
+		discardChunk()
 		c.reset()
 		return
 	}
